@@ -23,10 +23,12 @@ struct Cfg {
     valid: Vec<&'static str>,
     /// (value, what it violates)
     bad: Vec<(&'static str, &'static str)>,
+    /// level 0 of the chain lives in an imported schema file of another namespace
+    base_in_imported_file: bool,
 }
 
 fn configs(tier: &str) -> Vec<Cfg> {
-    let one = |label: &str, base: &'static str, f: Vec<(&'static str, &'static str)>, valid: Vec<&'static str>, bad: Vec<(&'static str, &'static str)>| Cfg { label: label.into(), base, chain: vec![f], valid, bad };
+    let one = |label: &str, base: &'static str, f: Vec<(&'static str, &'static str)>, valid: Vec<&'static str>, bad: Vec<(&'static str, &'static str)>| Cfg { label: label.into(), base, chain: vec![f], valid, bad, base_in_imported_file: false };
     let mut v = vec![
         one("string maxLength=3", "string", vec![("maxLength", "3")], vec!["abc", "\u{e9}\u{20ac}x"], vec![("abcd", "maxLength")]),
         one("string minLength=2", "string", vec![("minLength", "2")], vec!["ab"], vec![("a", "minLength")]),
@@ -40,15 +42,17 @@ fn configs(tier: &str) -> Vec<Cfg> {
         one("string minLength=2 maxLength=3", "string", vec![("minLength", "2"), ("maxLength", "3")], vec!["ab", "abc"], vec![("a", "minLength"), ("abcd", "maxLength")]),
         one("int minInclusive=1 maxInclusive=10", "int", vec![("minInclusive", "1"), ("maxInclusive", "10")], vec!["1", "10"], vec![("0", "minInclusive"), ("11", "maxInclusive")]),
         // derivation chains: the used type is the LAST level; ancestors' facets must hold too
-        Cfg { label: "chain depth 2: maxLength=4 <- minLength=2".into(), base: "string", chain: vec![vec![("maxLength", "4")], vec![("minLength", "2")]], valid: vec!["ab", "abcd"], bad: vec![("a", "own minLength"), ("abcde", "inherited maxLength")] },
+        Cfg { label: "chain depth 2: maxLength=4 <- minLength=2".into(), base: "string", chain: vec![vec![("maxLength", "4")], vec![("minLength", "2")]], valid: vec!["ab", "abcd"], bad: vec![("a", "own minLength"), ("abcde", "inherited maxLength")], base_in_imported_file: false },
+        Cfg { label: "chain depth 2 across files: imported maxLength=4 <- minLength=2".into(), base: "string", chain: vec![vec![("maxLength", "4")], vec![("minLength", "2")]], valid: vec!["ab", "abcd"], bad: vec![("a", "own minLength"), ("abcde", "inherited maxLength (imported file)")], base_in_imported_file: true },
         Cfg {
             label: "chain depth 3: maxLength=4 <- minLength=2 <- enumeration".into(),
             base: "string",
             chain: vec![vec![("maxLength", "4")], vec![("minLength", "2")], vec![("enumeration", "ab"), ("enumeration", "abcd"), ("enumeration", "a"), ("enumeration", "abcdef")]],
             valid: vec!["ab", "abcd"],
             bad: vec![("abc", "own enumeration"), ("a", "inherited minLength (level 1)"), ("abcdef", "inherited maxLength (level 0)")],
+            base_in_imported_file: false,
         },
-        Cfg { label: "chain depth 2: int minInclusive=1 <- maxInclusive=10".into(), base: "int", chain: vec![vec![("minInclusive", "1")], vec![("maxInclusive", "10")]], valid: vec!["1", "10"], bad: vec![("11", "own maxInclusive"), ("0", "inherited minInclusive")] },
+        Cfg { label: "chain depth 2: int minInclusive=1 <- maxInclusive=10".into(), base: "int", chain: vec![vec![("minInclusive", "1")], vec![("maxInclusive", "10")]], valid: vec!["1", "10"], bad: vec![("11", "own maxInclusive"), ("0", "inherited minInclusive")], base_in_imported_file: false },
     ];
     if tier == "quick" {
         // quick: every facet kind once + the chains
@@ -76,15 +80,27 @@ fn build(cfg: &Cfg) -> SchemaSet {
     let w = s.wsdl.as_mut().unwrap();
     w.schema.comps.clear();
     let n = cfg.chain.len();
+    const NS_COMMON: &str = "http://zv.example/common";
+    let mut common: Vec<Comp> = vec![];
     for (lvl, facets) in cfg.chain.iter().enumerate() {
-        w.schema.comps.push(Comp::Simple(SimpleType {
+        let level_ns = |l: usize| if cfg.base_in_imported_file && l == 0 { NS_COMMON } else { NS_W };
+        let st = Comp::Simple(SimpleType {
             name: format!("R{lvl}"),
             doc: None,
             xmlns: vec![],
-            base: if lvl == 0 { TypeRef::b(cfg.base) } else { TypeRef::n(NS_W, &format!("R{}", lvl - 1)) },
+            base: if lvl == 0 { TypeRef::b(cfg.base) } else { TypeRef::n(level_ns(lvl - 1), &format!("R{}", lvl - 1)) },
             facets: facets.iter().map(|(k, v)| Facet { kind: k.to_string(), value: v.to_string() }).collect(),
             facets_as_attrs: false,
-        }));
+        });
+        if cfg.base_in_imported_file && lvl == 0 {
+            common.push(st);
+        } else {
+            w.schema.comps.push(st);
+        }
+    }
+    if cfg.base_in_imported_file {
+        w.prefixes.push(("cmn".into(), NS_COMMON.into()));
+        w.schema.imports.push(Import { ns: NS_COMMON.into(), loc: Some("common.xsd".into()) });
     }
     let r = TypeRef::n(NS_W, &format!("R{}", n - 1));
     w.schema.comps.push(complex("Level2", vec![el("Deepest", r.clone())]));
@@ -117,6 +133,9 @@ fn build(cfg: &Cfg) -> SchemaSet {
     ];
     w.pt_ops = vec![PtOp { name: "Op".into(), input: "OpIn".into(), output: Some("OpOut".into()) }];
     w.b_ops = vec![BOp { name: "Op".into(), action: None, input: BIo { headers: vec![("OpIn".into(), "hdr".into())], parts: Some("parameters".into()) }, output: Some(BIo::default()) }];
+    if cfg.base_in_imported_file {
+        s.files.push(XsdFile { name: "common.xsd".into(), tns: NS_COMMON.into(), prefixes: vec![("cmn".into(), NS_COMMON.into())], default_ns: None, imports: vec![], comps: common });
+    }
     s
 }
 
@@ -306,7 +325,7 @@ pub fn check(tier: &str) -> i32 {
     rep.set("verdicts_judged", json!(verdicts));
     rep.set("transmissions_judged", json!(transmissions));
     rep.set("exhaustive", json!(true));
-    rep.set("bound", json!("facet configurations (each facet kind on string/int/long, two pairs, derivation chains of depth 2 and 3) x 11 positions of the restricted value (direct, optional, first/second item of a repeated member, nested 1 and 2 levels, attribute, member inherited through a complex extension, header part, a ref= to a global element of the restricted type, a choice branch) x placements: all-valid (each boundary value), every single position x every violating value, pairs (thorough: all; quick: neighbouring), one triple; transmission half for all-valid and single placements"));
+    rep.set("bound", json!("facet configurations (each facet kind on string/int/long, two pairs, derivation chains of depth 2 and 3, one of them with its first level in an imported schema file of another namespace) x 11 positions of the restricted value (direct, optional, first/second item of a repeated member, nested 1 and 2 levels, attribute, member inherited through a complex extension, header part, a ref= to a global element of the restricted type, a choice branch) x placements: all-valid (each boundary value), every single position x every violating value, pairs (thorough: all; quick: neighbouring), one triple; transmission half for all-valid and single placements"));
     rep.set("batch", json!({"packages": res.packages, "cache_hits": res.cache_hits, "build_s": res.build_secs, "run_s": res.run_secs}));
     rep.assume("the restriction-check trait and method are discovered through an impl in the emitted file");
     rep.finish()
